@@ -3,7 +3,7 @@ import os
 
 import numpy as np
 
-from build import BOOL, DICT, DT, EN, F, I, L, NOJ, NP, R, S, SETUP, SHARED, Prog
+from build import ARR, BOOL, DICT, DT, EN, F, I, L, NOJ, NP, R, S, SETUP, SHARED, TUP, Prog
 from objgen import ENUM_MEMBERS, ORDER, add_all_classes, ident, make_kwargs, text, value_for, with_units
 from objmodel import CLASSES
 from scen import DTYPES, rand_array, rand_name, rng_for, simple_file
@@ -570,6 +570,21 @@ def gen_C05(tier, seed):
         p.set(ax2, 'coordinates', L(*[S(t) for t in texts]))
         p.write(1)
         progs.append(p.build())
+    # other forms of the same values: numpy arrays as attribute values, tuples for lists of references
+    for i in range(3):
+        p = Prog(f'C05-forms-{i}', {'kind': 'forms'})
+        lf, o = base_lf(p)
+        c = p.channel(lf, 'CH', data=np.arange(3, dtype='float64'))
+        c2 = p.channel(lf, 'CH2', data=np.arange(3, dtype='float64'))
+        st = p.frame(lf, 'FR', [c, c2])
+        p.steps[-1]['kw']['channels'] = TUP(R(c), R(c2))                       # a tuple of channels
+        p.add(lf, 'axis', 'AX', coordinates=ARR(['float64', 'int32', 'float32'][i], F(1.5) if i != 1 else I(1), F(2.5) if i != 1 else I(2), F(4.0) if i != 1 else I(4)))
+        z1, z2 = p.add(lf, 'zone', 'Z1'), p.add(lf, 'zone', 'Z2')
+        p.add(lf, 'parameter', 'PAR', zones=TUP(R(z1), R(z2)), values=ARR('float64', L(F(1.0), F(2.0)), L(F(3.0), F(4.0)), nested=True))
+        p.add(lf, 'tool', 'TOOL', channels=TUP(R(c)), parts=TUP())
+        p.add(lf, 'comment', 'COM', text=TUP(S('a'), S('b')))
+        p.write(1, valid=False, either=True)
+        progs.append(p.build())
     # FRAME ENCRYPTED takes booleans, 0/1 numbers and yes/no words
     for i, v in enumerate([BOOL(True), BOOL(False), I(1), F(0.0), NOJ(S('yes')), NOJ(S('F')), NOJ(S('maybe')), NOJ(I(2))]):
         p = Prog(f'C05-encrypted-{i}', {'kind': 'encrypted'})
@@ -939,6 +954,23 @@ def gen_C11(tier, seed):
                 p.write(fid, route='none' if route in ('inline', 'presliced') else route, data_arrays=arrs, extras=extras,
                         perm=perm, fname=f'out{fid}.dlis', **opts)
             progs.append(p.build())
+    # pathlib.Path objects for the output file and the HDF5 source
+    for i in range(2):
+        p = Prog(f'C11-paths-{i}', {'kind': 'paths'})
+        a, b = rand_array(rng, 'float64', 5), rand_array(rng, 'int16', 5, 2)
+        for fid, (route, as_path) in enumerate([('h5', True), ('h5', False), ('dict', True), ('inline', False)], start=1):
+            p.file(fid, vrl=256)
+            lf = p.lf(fid, lf=fid, fh_id='PATHS')
+            p.origin(lf, name='O')
+            if route == 'inline':
+                ca, cb = p.channel(lf, 'A', data=a), p.channel(lf, 'B', data=b)
+                arrs = {}
+            else:
+                ca, cb = p.channel(lf, 'A'), p.channel(lf, 'B')
+                arrs = {ca: p.array(a), cb: p.array(b)}
+            p.frame(lf, 'FR', [ca, cb])
+            p.write(fid, route='none' if route == 'inline' else route, data_arrays=arrs, fname=f'o{fid}.dlis', as_path=as_path, in_chunk=[None, 2][i])
+        progs.append(p.build())
     # two windows of the same DLISFile one after the other (evenly / unevenly spaced index): each file is the one written from
     # the pre-sliced arrays
     depth = np.array([10, 11, 12, 13, 14, 15, 17, 20, 24, 29, 35, 42], dtype='float64')
